@@ -53,6 +53,39 @@ Theorem const_overloads_same_answer : forall m k i,
 Proof. exact fm_const_same_answer. Qed.
 Print Assumptions const_overloads_same_answer.
 
+(* call sites passing an argument of another type than KEY (double for a float key, out-of-range or negative int
+   for a short / unsigned char key, const char* for std::string): the argument is converted to KEY at the call, so
+   two arguments with the same converted key ARE the same key for every keyed member ... *)
+Theorem converted_args_same_key : forall t m a b v,
+  conv t a = conv t b ->
+  fm_step_conv t m (FAt a) = fm_step_conv t m (FAt b) /\
+  fm_step_conv t m (FIndex a) = fm_step_conv t m (FIndex b) /\
+  fm_step_conv t m (FSet a v) = fm_step_conv t m (FSet b v) /\
+  fm_step_conv t m (FContains a) = fm_step_conv t m (FContains b) /\
+  fm_step_conv t m (FErase a) = fm_step_conv t m (FErase b) /\
+  fm_step_conv t m (FAtC a) = fm_step_conv t m (FAtC b).
+Proof. exact fm_conv_same_key. Qed.
+Print Assumptions converted_args_same_key.
+
+(* ... the converted key is stored once whatever mixture of argument spellings the history uses ... *)
+Theorem converted_keys_stored_once : forall t ops, NoDup (map fst (fst (fm_run (map (fm_op_conv t) ops)))).
+Proof. exact fm_conv_run_nodup. Qed.
+Print Assumptions converted_keys_stored_once.
+
+(* ... and what was written through one spelling is found, contained and erased through any other *)
+Theorem converted_set_then_find : forall t m a b v,
+  NoDup (map fst m) -> conv t a = conv t b ->
+  let m' := fst (fm_step_conv t m (FSet a v)) in
+  snd (fm_step_conv t m' (FAt b)) = OVal v /\ snd (fm_step_conv t m' (FContains b)) = OBool true /\
+  fm_lookup (fst (fm_step_conv t m' (FErase b))) (conv t a) = None.
+Proof. exact fm_conv_set_then_find. Qed.
+Print Assumptions converted_set_then_find.
+
+Example converted_example :
+  fold_left (fun m o => fst (fm_step_conv [(3, 1); (4, 2)] m o)) [FSet 1 10; FSet 3 11; FSet 4 7; FErase 2] []
+  = [(1, 11)].
+Proof. vm_compute. reflexivity. Qed.
+
 (* ParameterizedObject: names unique in every reachable state *)
 Theorem po_nodup : forall ops, NoDup (map p_name (fst (po_run ops))).
 Proof. exact po_run_inv. Qed.
